@@ -614,7 +614,19 @@ fn main() {
         cases.push(("random".to_string(), scn, Plan::Generate(r.fork())));
     }
 
-    for (origin, scn, plan) in cases {
+    let t_all = std::time::Instant::now();
+    let wall_budget: u64 = args.get("budget-secs").and_then(|s| s.parse().ok()).unwrap_or(if args.thorough() { 4000 } else { 480 });
+    let total_cases = cases.len();
+    let (mut n_dis, mut n_viol) = (0usize, 0usize);
+    for (ci, (origin, scn, plan)) in cases.into_iter().enumerate() {
+        if n_dis >= 10 || n_viol >= 10 {
+            report.notes.push(format!("stopped after case {} of {}: {} disagreements, {} oracle violations", ci, total_cases, n_dis, n_viol));
+            break;
+        }
+        if t_all.elapsed().as_secs() > wall_budget {
+            report.notes.push(format!("stopped after case {} of {}: wall budget of {} s used up", ci, total_cases, wall_budget));
+            break;
+        }
         let (head, out) = run_impl(&scn, plan);
         report.impl_runs += 1;
         let line = format!("{}|S {}", head, show_sched(&out.sched));
@@ -637,7 +649,12 @@ fn main() {
         report.sample(json!({"case": line, "impl": out.line_tail, "model": model_out}));
         let case_json = |s: &Scenario, l: &[Label]| json!({"scenario": s, "sched": show_sched(l)});
         if differs {
+            n_dis += 1;
+            let mut budget = Budget::new(150, 20);
             let shrunk = ddmin(&out.sched, &mut |cand: &[Label]| {
+                if !budget.take() {
+                    return false;
+                }
                 let (h, o) = run_impl(&scn, Plan::Replay(cand.to_vec()));
                 let l = format!("{}|S {}", h, show_sched(&o.sched));
                 model.differs(&l, &o.line_tail).0
@@ -653,13 +670,18 @@ fn main() {
             }));
         }
         if !out.oracle.is_empty() {
-            let shrunk = ddmin(&out.sched, &mut |cand: &[Label]| !run_impl(&scn, Plan::Replay(cand.to_vec())).1.oracle.is_empty());
+            n_viol += 1;
+            let mut budget = Budget::new(150, 20);
+            let shrunk = ddmin(&out.sched, &mut |cand: &[Label]| budget.take() && !run_impl(&scn, Plan::Replay(cand.to_vec())).1.oracle.is_empty());
             let (_, o) = run_impl(&scn, Plan::Replay(shrunk));
             let what = if o.oracle.is_empty() { out.oracle.join("; ") } else { o.oracle.join("; ") };
             let sched = if o.oracle.is_empty() { out.sched.clone() } else { o.sched.clone() };
             report.oracle_violation("", &what, case_json(&scn, &sched));
         }
+        if differs || !out.oracle.is_empty() || ci % 50 == 49 {
+            report.write(&args.out);
+        }
     }
-    report.notes.push(format!("model calls: {}", model.calls));
+    report.notes.push(format!("model calls: {}; wall {} s", model.calls, t_all.elapsed().as_secs()));
     report.write(&args.out);
 }
